@@ -139,10 +139,11 @@ Lemma p_stmt_S toks f : p_stmt toks (S f) =
       (p_alt ((p_call toks) f)
       (p_alt ((p_assign toks) f)
          
+         (p_restore
          (p_map (fun r => let '((_, ignored), inf) := r in
                           SError (info_append inf {| e_s := i_s inf; e_e := i_e inf;
                                                      e_m := EParse (UnexpectedCharacters (show_tokens ignored)) |}))
-            (p_info (p_pair (p_comments toks) ((p_ignore1 toks) (la_stmt toks)))))))))) s0.
+            (p_info (p_pair (p_comments toks) ((p_ignore1 toks) (la_stmt toks))))))))))) s0.
 Proof. reflexivity. Qed.
 
 Lemma p_stmt_0 toks : p_stmt toks 0 = fun _ => PFuel.
